@@ -64,32 +64,26 @@ func checkC20(c *Check) {
 		}
 		c.Cond(len(prims) == 1 && (prims[0] == "syscall.Rmdir" || prims[0] == "os.Remove"), "1/destroy-ownership", cg+".remove:primitive", p.Pos(rm.Pos()), "removal is a non-recursive rmdir", "the removal primitive is "+strings.Join(prims, ", ")+": sub-groups created through other handles would be removed with the parent")
 	}
-	// who-may-write existing: constructors only
-	writers := map[string]bool{}
+	// who-may-write the ownership flag: only code that is constructing the handle — every store to it targets an
+	// object allocated in the same function (the handle being built), never a handle received from elsewhere
+	nW := 0
+	var badW []string
 	for _, fn := range p.PkgFuncs(cg) {
 		for _, b := range fn.Blocks {
 			for _, in := range b.Instrs {
 				if st, ok := in.(*ssa.Store); ok {
 					if fa, ok := st.Addr.(*ssa.FieldAddr); ok && fieldName(fa.X.Type(), fa.Field) == "existing" {
-						root := fn
-						for root.Parent() != nil {
-							root = root.Parent()
+						nW++
+						if !isFreshObject(fa.X, 0) {
+							badW = append(badW, fn.Name()+"@"+p.Pos(st.Pos()))
 						}
-						writers[root.Name()] = true
 					}
 				}
 			}
 		}
 	}
-	allowedW := map[string]bool{"newV1": true, "newV2": true, "openExistingV1": true, "openExistingV2": true, "New": true, "Nest": true}
-	var badW []string
-	for w := range writers {
-		if !allowedW[w] {
-			badW = append(badW, w)
-		}
-	}
 	sort.Strings(badW)
-	c.Cond(len(badW) == 0 && len(writers) >= 4, "1/destroy-ownership", cg+":existing-writers", "-", "the ownership flag is written only by constructors", "the ownership flag is written outside constructors: "+strings.Join(badW, ", "))
+	c.Cond(len(badW) == 0 && nW >= 4, "1/destroy-ownership", cg+":existing-writers", "-", "the ownership flag is written only on the handle under construction", "the ownership flag of a handle that was not created here is rewritten ("+strings.Join(badW, ", ")+"): Destroy would remove a group this handle did not create, or leak one it did")
 	c.Expect("1/destroy-ownership", 7)
 
 	// ---------- 2: atomic ownership ----------
@@ -101,19 +95,7 @@ func checkC20(c *Check) {
 		if fn == nil {
 			continue
 		}
-		recv, name := fn.Params[0].Name(), fn.Params[1].Name()
-		ok := false
-		for _, ci := range callInstrs(fn) {
-			if n, _ := calleeOf(ci); n == "path/filepath.Join" {
-				d := ""
-				if v, isV := ci.(ssa.Value); isV {
-					d = describe(v)
-				}
-				if strings.Contains(d, "["+recv+".path, "+name+"]") || strings.Contains(d, ".path, "+name+"]") || strings.Contains(d, "["+recv+".prefix, "+name+"]") {
-					ok = true
-				}
-			}
-		}
+		ok := joinsChildPath(fn, fn.Params[0], fn.Params[1], 2)
 		c.Cond(ok, "3/nesting", cg+"."+t.impl+"."+t.m+":child-path", p.Pos(fn.Pos()), "child = Join(parent, name)", "the sub-group's path is not Join(parent path, name)")
 	}
 	if ps := p.Func(cg, "prefixAndSuffix"); ps != nil {
@@ -619,4 +601,98 @@ func checkCgroupTable(c *Check) {
 		}
 	}
 	c.Expect("5/unit-table", 20)
+}
+
+// isFreshObject: v denotes an object allocated in the function that uses it (or,
+// for a closure, in the function that created the closure): a composite literal
+// / new(T), possibly held in a local variable or captured by a closure.
+func isFreshObject(v ssa.Value, d int) bool {
+	if d > 8 {
+		return false
+	}
+	switch x := v.(type) {
+	case *ssa.Alloc:
+		return true
+	case *ssa.Phi:
+		for _, e := range x.Edges {
+			if !isFreshObject(e, d+1) {
+				return false
+			}
+		}
+		return len(x.Edges) > 0
+	case *ssa.UnOp:
+		if x.Op != token.MUL {
+			return false
+		}
+		cell := x.X
+		if fv, ok := cell.(*ssa.FreeVar); ok {
+			cell = closureSiteOf(fv)
+			if cell == nil {
+				return false
+			}
+		}
+		a, ok := cell.(*ssa.Alloc)
+		if !ok {
+			return false
+		}
+		n := 0
+		for _, r := range *a.Referrers() {
+			if st, ok := r.(*ssa.Store); ok && st.Addr == ssa.Value(a) {
+				n++
+				if !isFreshObject(st.Val, d+1) {
+					return false
+				}
+			}
+		}
+		// stores made inside closures that captured the cell
+		return n > 0
+	case *ssa.FreeVar:
+		if site := closureSiteOf(x); site != nil {
+			return isFreshObject(site, d+1)
+		}
+	case *ssa.MakeInterface:
+		return isFreshObject(x.X, d+1)
+	case *ssa.ChangeType:
+		return isFreshObject(x.X, d+1)
+	}
+	return false
+}
+
+// joinsChildPath: fn (or a helper of the module it hands its receiver and the
+// name to) computes filepath.Join(<recv>.path|prefix, <name>).
+func joinsChildPath(fn *ssa.Function, recv, name ssa.Value, depth int) bool {
+	for _, ci := range callInstrs(fn) {
+		n, callee := calleeOf(ci)
+		args := ci.Common().Args
+		if n == "path/filepath.Join" && len(args) == 1 {
+			if sl, ok := args[0].(*ssa.Slice); ok {
+				if a, ok := sl.X.(*ssa.Alloc); ok {
+					if els, ok := arrayLitElems(a); ok && len(els) == 2 && stripConv(els[1]) == name {
+						if u, ok := stripConv(els[0]).(*ssa.UnOp); ok && u.Op == token.MUL {
+							if fa, ok := u.X.(*ssa.FieldAddr); ok && fa.X == recv {
+								if f := fieldName(fa.X.Type(), fa.Field); f == "path" || f == "prefix" {
+									return true
+								}
+							}
+						}
+					}
+				}
+			}
+		}
+		if callee != nil && inModule(callee) && depth > 0 && len(callee.Params) == len(args) {
+			ri, ni := -1, -1
+			for i, a := range args {
+				if stripConv(a) == recv {
+					ri = i
+				}
+				if stripConv(a) == name {
+					ni = i
+				}
+			}
+			if ri >= 0 && ni >= 0 && joinsChildPath(callee, callee.Params[ri], callee.Params[ni], depth-1) {
+				return true
+			}
+		}
+	}
+	return false
 }
